@@ -414,6 +414,7 @@ def dataset_case(ctx, rng, idx):
     # dose rows may overlap in time (a bolus during an infusion, a loading
     # dose together with the start of an infusion): the rates add up
     overlapping = with_duration and idx % 4 == 3
+    duplicates = idx % 4 == 1 or (overlapping and rng.random() < 0.3)
     rows, truth = [], {}
     for i in range(n_ids):
         label = {'int': i + 1, 'str': 'p%d' % i, 'float': float(i + 1)}[
@@ -442,6 +443,11 @@ def dataset_case(ctx, rng, idx):
             dd = 0.01 if (np.isnan(d) or d == 0) else d
             truth[key].append((s, dd, a))
             last_end = s + dd
+            if duplicates and rng.random() < 0.5:
+                # the same dose given twice at the same time (two tablets
+                # recorded as two identical rows): both are administered
+                rows.append(dict(rows[-1]))
+                truth[key].append((s, dd, a))
     df = pd.DataFrame(rows)
     df = df.iloc[rng.permutation(len(df))].reset_index(drop=True)
     dur_key = 'Duration'
@@ -450,8 +456,10 @@ def dataset_case(ctx, rng, idx):
         dur_key = None
     feats = {'n_ids': n_ids, 'id_style': id_style,
              'duration_column': with_duration, 'direct': direct,
-             'overlapping_dose_rows': overlapping}
-    ctx.case(('dataset', n_ids, id_style, with_duration, direct), True,
+             'overlapping_dose_rows': overlapping,
+             'duplicate_dose_rows': duplicates}
+    ctx.case(('dataset', n_ids, id_style, with_duration, direct,
+              duplicates), True,
              sample=dict(feats, dose_rows=truth))
     c = chi.ProblemModellingController(m, chi.GaussianErrorModel())
     # call order: parameters may be fixed before / after the data arrive and
